@@ -63,17 +63,15 @@ type fieldPlan struct {
 	args        argPlan
 	returnType  Output
 
-	// skipPredicate evaluates the field's combined @skip / @include
-	// directives against request variables. nil ⇒ always include
-	// (constant-true at plan time, the common case).
-	skipPredicate func(map[string]interface{}) bool
-
-	// occPredicates[i] is the predicate of occurrence fieldASTs[i] (its own
-	// directives AND-ed with those of the enclosing fragments; nil ⇒
-	// always included). skipPredicate is their disjunction: a response
-	// key is present iff at least one occurrence is included, and each
-	// occurrence contributes its sub-selection only when it is included.
-	occPredicates []func(map[string]interface{}) bool
+	// occGates[i] is the inclusion condition of occurrence fieldASTs[i] (its
+	// own variable-driven @skip / @include under those of the enclosing
+	// fragments; nil ⇒ always included). A response key is present iff at
+	// least one occurrence is included, and each occurrence contributes
+	// its sub-selection only when it is included. alwaysIncluded records
+	// that some occurrence is unconditional (the common case), so the
+	// executor need not look at the gates at all.
+	occGates       []*planGate
+	alwaysIncluded bool
 
 	// sub is set when returnType (after unwrapping NonNull and List)
 	// resolves to a single concrete *Object; abstractAlternatives is
@@ -105,6 +103,100 @@ type argPlan struct {
 	// nil when hasVariables is false.
 	fieldDefArgs []*Argument
 	argASTs      []*ast.Argument
+}
+
+// planGate is one node of the inclusion conditions the planner records for
+// variable-driven @skip / @include. A gate is open for a request when its own
+// directives include it and, if it has enclosing conditions, at least one of
+// them is open. The nil *planGate is always open. Conditions form a DAG
+// rather than one closure per occurrence because a fragment is collected only
+// once per selection set: when it is spread again under another condition,
+// that condition is added to the fragment's gate (addParent) instead of
+// walking the fragment a second time, which keeps planning linear in the
+// size of the fragments however they spread one another.
+type planGate struct {
+	// own evaluates the @skip / @include directives of the selection the
+	// gate was made for; nil ⇒ no directive of its own.
+	own func(map[string]interface{}) bool
+	// parents are the alternative enclosing conditions; none ⇒ unconditional.
+	parents []*planGate
+	// always is set once an unconditional alternative was added.
+	always bool
+}
+
+// gateUnder returns the gate of a selection with directive predicate own
+// inside a context guarded by parent.
+func gateUnder(parent *planGate, own func(map[string]interface{}) bool) *planGate {
+	if own == nil {
+		return parent
+	}
+	if parent == nil {
+		return &planGate{own: own}
+	}
+	return &planGate{own: own, parents: []*planGate{parent}}
+}
+
+// addParent adds one more enclosing condition under which g is open.
+func (g *planGate) addParent(parent *planGate) {
+	if g.always {
+		return
+	}
+	if parent == nil {
+		g.always = true
+		g.parents = nil
+		return
+	}
+	for _, have := range g.parents {
+		if have == parent {
+			return
+		}
+	}
+	g.parents = append(g.parents, parent)
+}
+
+// gateOpen evaluates a gate against the request's variables. Results are
+// kept per request, so shared enclosing conditions are evaluated once.
+func (eCtx *executionContext) gateOpen(g *planGate) bool {
+	if g == nil {
+		return true
+	}
+	if open, ok := eCtx.gateMemo[g]; ok {
+		return open
+	}
+	if eCtx.gateMemo == nil {
+		eCtx.gateMemo = map[*planGate]bool{}
+	}
+	eCtx.gateMemo[g] = false // a gate cannot open itself
+	open := g.own == nil || g.own(eCtx.VariableValues)
+	if open && !g.always && len(g.parents) > 0 {
+		open = false
+		for _, parent := range g.parents {
+			if eCtx.gateOpen(parent) {
+				open = true
+				break
+			}
+		}
+	}
+	eCtx.gateMemo[g] = open
+	return open
+}
+
+// anyGateOpen reports whether at least one of the gates is open.
+func (eCtx *executionContext) anyGateOpen(gates []*planGate) bool {
+	for _, g := range gates {
+		if eCtx.gateOpen(g) {
+			return true
+		}
+	}
+	return false
+}
+
+// fragmentVisit is the state of one fragment within the selection set being
+// collected: still being walked (a spread of it is a cycle and is skipped),
+// collected unconditionally (gate nil), or collected under gate.
+type fragmentVisit struct {
+	walking bool
+	gate    *planGate
 }
 
 // PlanQuery walks the document, picks the named operation (or the
@@ -290,19 +382,19 @@ func fragmentCycleThroughField(fragments map[string]ast.Definition) (string, boo
 //     this, `... { x { a } } ... { x { b } }` would only see one
 //     fragment's `x.{...}`.
 //
-// visitedFragmentNames is threaded along to avoid infinite recursion
-// in mutually-referencing fragments — same shape as the runtime
-// collectFields uses.
-func (p *Plan) planSelectionSet(parentType *Object, selectionSet *ast.SelectionSet, visitedFragmentNames map[string]bool) *selectionPlan {
+// The visited-fragment table is threaded along so that every fragment is
+// collected once per selection set, and to avoid infinite recursion in
+// mutually-referencing fragments.
+func (p *Plan) planSelectionSet(parentType *Object, selectionSet *ast.SelectionSet, visited map[string]*fragmentVisit) *selectionPlan {
 	if selectionSet == nil {
 		return nil
 	}
-	if visitedFragmentNames == nil {
-		visitedFragmentNames = map[string]bool{}
+	if visited == nil {
+		visited = map[string]*fragmentVisit{}
 	}
 	sp := &selectionPlan{parentType: parentType}
 	keyed := map[string]int{}
-	p.collectInto(parentType, selectionSet, visitedFragmentNames, sp, keyed, nil)
+	p.collectInto(parentType, selectionSet, visited, sp, keyed, nil)
 	if len(sp.fields) == 0 {
 		return nil
 	}
@@ -364,14 +456,14 @@ func (p *Plan) abstractAlternative(fp *fieldPlan, runtimeType *Object) *selectio
 func (p *Plan) planMergedSelectionsForType(parentType *Object, merged *fieldPlan) *selectionPlan {
 	sp := &selectionPlan{parentType: parentType}
 	keyed := map[string]int{}
-	visited := map[string]bool{}
+	visited := map[string]*fragmentVisit{}
 	for i, f := range merged.fieldASTs {
 		if f == nil || f.SelectionSet == nil {
 			continue
 		}
 		// the sub-selection of an occurrence counts only when that
 		// occurrence itself is included
-		p.collectInto(parentType, f.SelectionSet, visited, sp, keyed, merged.occPredicates[i])
+		p.collectInto(parentType, f.SelectionSet, visited, sp, keyed, merged.occGates[i])
 	}
 	if len(sp.fields) == 0 {
 		return nil
@@ -387,18 +479,19 @@ func (p *Plan) planMergedSelectionsForType(parentType *Object, merged *fieldPlan
 
 // collectInto mirrors executor.collectFields: walks selections,
 // follows fragment spreads + inline fragments, evaluates @include /
-// @skip directives at plan time when constant. Per-field
-// skipPredicates carry the dynamic part forward to ExecutePlan.
+// @skip directives at plan time when constant. Per-occurrence gates
+// carry the dynamic part forward to ExecutePlan.
 //
-// parentPred carries variable-driven @skip / @include from any
-// enclosing inline fragment or fragment spread. It is AND-composed
-// with each field's own predicate when a new fieldPlan is created so
-// that fragment-level gates are honored at execute time.
+// parent carries variable-driven @skip / @include from any enclosing
+// inline fragment or fragment spread (and, for a sub-selection, from
+// the occurrence of the field it belongs to). Each collected field
+// occurrence is gated by its own directives under parent, so that
+// fragment-level conditions are honored at execute time.
 //
 // keyed maps responseKey → index in sp.fields so repeat selections
 // of the same response key merge their fieldASTs (matches
 // collectFields's `fields[name] = append(fields[name], selection)`).
-func (p *Plan) collectInto(parentType *Object, selectionSet *ast.SelectionSet, visitedFragmentNames map[string]bool, sp *selectionPlan, keyed map[string]int, parentPred func(map[string]interface{}) bool) {
+func (p *Plan) collectInto(parentType *Object, selectionSet *ast.SelectionSet, visited map[string]*fragmentVisit, sp *selectionPlan, keyed map[string]int, parent *planGate) {
 	for _, iSelection := range selectionSet.Selections {
 		switch sel := iSelection.(type) {
 		case *ast.Field:
@@ -406,21 +499,19 @@ func (p *Plan) collectInto(parentType *Object, selectionSet *ast.SelectionSet, v
 			if alwaysSkip {
 				continue
 			}
+			occGate := gateUnder(parent, pred)
 			responseKey := getFieldEntryKey(sel)
 			if idx, ok := keyed[responseKey]; ok {
-				// Merge with an earlier same-key field (sub-selection
-				// merging happens at execute time via collectFields on
-				// the sub-selection — for now we just keep all ASTs and
-				// let the runtime path stitch sub-selections; the
-				// plan-time precompute conservatively re-plans the
-				// first AST's sub-selection, which is correct because
-				// validation rules guarantee mergeable selections refer
-				// to the same field).
+				// Merge with an earlier same-key field: keep every
+				// occurrence's AST with its own gate; the sub-selections
+				// of the included occurrences are merged by
+				// planMergedSelectionsForType.
 				merged := sp.fields[idx]
-				occPred := andPredicates(parentPred, pred)
 				merged.fieldASTs = append(merged.fieldASTs, sel)
-				merged.occPredicates = append(merged.occPredicates, occPred)
-				merged.skipPredicate = orPredicates(merged.skipPredicate, occPred)
+				merged.occGates = append(merged.occGates, occGate)
+				if occGate == nil {
+					merged.alwaysIncluded = true
+				}
 				continue
 			}
 			fieldName := ""
@@ -433,14 +524,13 @@ func (p *Plan) collectInto(parentType *Object, selectionSet *ast.SelectionSet, v
 				// fieldDef so ExecutePlan can mirror the
 				// hasNoFieldDefs branch (skip the response key).
 			}
-			occPred := andPredicates(parentPred, pred)
 			fp := &fieldPlan{
-				responseKey:   responseKey,
-				fieldName:     fieldName,
-				fieldDef:      fieldDef,
-				fieldASTs:     []*ast.Field{sel},
-				skipPredicate: occPred,
-				occPredicates: []func(map[string]interface{}) bool{occPred},
+				responseKey:    responseKey,
+				fieldName:      fieldName,
+				fieldDef:       fieldDef,
+				fieldASTs:      []*ast.Field{sel},
+				occGates:       []*planGate{occGate},
+				alwaysIncluded: occGate == nil,
 			}
 			if fieldDef != nil {
 				fp.returnType = fieldDef.Type
@@ -458,7 +548,7 @@ func (p *Plan) collectInto(parentType *Object, selectionSet *ast.SelectionSet, v
 				continue
 			}
 			if sel.SelectionSet != nil {
-				p.collectInto(parentType, sel.SelectionSet, visitedFragmentNames, sp, keyed, andPredicates(parentPred, pred))
+				p.collectInto(parentType, sel.SelectionSet, visited, sp, keyed, gateUnder(parent, pred))
 			}
 
 		case *ast.FragmentSpread:
@@ -470,7 +560,16 @@ func (p *Plan) collectInto(parentType *Object, selectionSet *ast.SelectionSet, v
 			if sel.Name != nil {
 				fragName = sel.Name.Value
 			}
-			if visitedFragmentNames[fragName] {
+			spreadGate := gateUnder(parent, pred)
+			if visit, seen := visited[fragName]; seen {
+				// Collected before in this selection set (or being walked
+				// right now, which is a cycle). Whether this spread is
+				// included may only be known per request, so it must not be
+				// lost: it becomes one more condition under which the
+				// fields already collected from the fragment are included.
+				if !visit.walking && visit.gate != nil {
+					visit.gate.addParent(spreadGate)
+				}
 				continue
 			}
 			frag, ok := p.fragments[fragName]
@@ -481,51 +580,16 @@ func (p *Plan) collectInto(parentType *Object, selectionSet *ast.SelectionSet, v
 			if !ok {
 				continue
 			}
-			visitedFragmentNames[fragName] = true
-			spreadPred := andPredicates(parentPred, pred)
+			visit := &fragmentVisit{walking: true}
+			if spreadGate != nil {
+				visit.gate = &planGate{parents: []*planGate{spreadGate}}
+			}
+			visited[fragName] = visit
 			if planFragmentMatches(*p.schema, fragDef.TypeCondition, parentType) && fragDef.GetSelectionSet() != nil {
-				p.collectInto(parentType, fragDef.GetSelectionSet(), visitedFragmentNames, sp, keyed, spreadPred)
+				p.collectInto(parentType, fragDef.GetSelectionSet(), visited, sp, keyed, visit.gate)
 			}
-			if spreadPred != nil {
-				// Whether this spread is included is only known per request, so
-				// it must not hide a later spread of the same fragment: the mark
-				// only guards against cycles while the fragment is being walked.
-				delete(visitedFragmentNames, fragName)
-			}
+			visit.walking = false
 		}
-	}
-}
-
-// andPredicates returns a predicate that is true only when both inputs
-// are true. nil is treated as the constant-true predicate, so the
-// common "no enclosing gate" / "no field-level directive" cases avoid
-// allocating a closure.
-func andPredicates(a, b func(map[string]interface{}) bool) func(map[string]interface{}) bool {
-	if a == nil {
-		return b
-	}
-	if b == nil {
-		return a
-	}
-	return func(vars map[string]interface{}) bool {
-		if !a(vars) {
-			return false
-		}
-		return b(vars)
-	}
-}
-
-// orPredicates returns a predicate that is true when either input is
-// true. nil is the constant-true predicate, so it absorbs the other.
-func orPredicates(a, b func(map[string]interface{}) bool) func(map[string]interface{}) bool {
-	if a == nil || b == nil {
-		return nil
-	}
-	return func(vars map[string]interface{}) bool {
-		if a(vars) {
-			return true
-		}
-		return b(vars)
 	}
 }
 
@@ -611,7 +675,7 @@ func valueHasVariables(v ast.Value) bool {
 
 // planDirectives evaluates @include and @skip directives at plan
 // time when their `if` argument is a literal; returns a
-// skipPredicate (nil if always-include) and an alwaysSkip flag (true
+// predicate (nil if always-include) and an alwaysSkip flag (true
 // if literal evaluation produced a definitive skip).
 func planDirectives(directives []*ast.Directive) (pred func(map[string]interface{}) bool, alwaysSkip bool) {
 	var skipDir, includeDir *ast.Directive
@@ -808,7 +872,7 @@ func executePlannedSelection(eCtx *executionContext, sp *selectionPlan, source i
 	}
 	finalResults := make(map[string]interface{}, len(sp.fields))
 	for _, fp := range sp.fields {
-		if fp.skipPredicate != nil && !fp.skipPredicate(eCtx.VariableValues) {
+		if !fp.alwaysIncluded && !eCtx.anyGateOpen(fp.occGates) {
 			continue
 		}
 		if fp.fieldDef == nil {
